@@ -49,6 +49,7 @@ var sinkMethods = map[string]bool{
 var alsoSink = map[string]bool{"ToBinary": true}
 
 type flowSummary struct {
+	sites  map[string]map[ssa.Instruction]flabel // "Kind" -> distinct sink call sites with their strongest label
 	sinks  map[string]flabel // "Kind" -> strongest label
 	rets   map[int]flabel
 	outs   map[int]flabel    // flows into the object of another parameter
@@ -56,7 +57,7 @@ type flowSummary struct {
 }
 
 func newSummary() *flowSummary {
-	return &flowSummary{sinks: map[string]flabel{}, rets: map[int]flabel{}, outs: map[int]flabel{}, stores: map[string]flabel{}}
+	return &flowSummary{sites: map[string]map[ssa.Instruction]flabel{}, sinks: map[string]flabel{}, rets: map[int]flabel{}, outs: map[int]flabel{}, stores: map[string]flabel{}}
 }
 
 func up(m map[string]flabel, k string, l flabel) bool {
@@ -166,6 +167,7 @@ type fstate struct {
 	sum    *flowSummary
 	change bool
 	depth  int
+	cur    ssa.Instruction
 }
 
 func (s *fstate) get(v ssa.Value) flabel {
@@ -325,18 +327,36 @@ func (s *fstate) storeIntoV(addr ssa.Value, l flabel, seen map[ssa.Value]bool) {
 	}
 }
 
-func (s *fstate) sink(kind string, l flabel) {
+func (s *fstate) sink(kind string, l flabel) { s.sinkAt(kind, l, s.cur) }
+
+func (s *fstate) sinkAt(kind string, l flabel, site ssa.Instruction) {
 	if l == lNone {
 		return
 	}
 	if up(s.sum.sinks, kind, l) {
 		s.change = true
 	}
+	if site != nil {
+		m := s.sum.sites[kind]
+		if m == nil {
+			m = map[ssa.Instruction]flabel{}
+			s.sum.sites[kind] = m
+		}
+		if l > m[site] {
+			m[site] = l
+			s.change = true
+		}
+	}
 }
 
 func (s *fstate) applySummary(sum *flowSummary, argLabel flabel, call ssa.Value, args []ssa.Value, nParams int, closure *ssa.MakeClosure) {
 	for k, l := range sum.sinks {
-		s.sink(k, minLabel(argLabel, l))
+		s.sinkAt(k, minLabel(argLabel, l), nil)
+	}
+	for k, m := range sum.sites {
+		for site, l := range m {
+			s.sinkAt(k, minLabel(argLabel, l), site)
+		}
 	}
 	for k, l := range sum.stores {
 		if up(s.sum.stores, k, minLabel(argLabel, l)) {
@@ -349,7 +369,7 @@ func (s *fstate) applySummary(sum *flowSummary, argLabel flabel, call ssa.Value,
 		}
 	}
 	for k, l := range sum.outs {
-		if k < len(args) {
+		if k < len(args) && k < nParams {
 			s.storeInto(args[k], minLabel(argLabel, l))
 			s.set(args[k], minLabel(argLabel, l))
 		} else if closure != nil && k-nParams >= 0 && k-nParams < len(closure.Bindings) {
@@ -400,6 +420,7 @@ func isVariableLike(t types.Type) bool {
 }
 
 func (s *fstate) step(ins ssa.Instruction) {
+	s.cur = ins
 	switch x := ins.(type) {
 	case *ssa.Phi:
 		for _, ed := range x.Edges {
@@ -567,6 +588,18 @@ func (s *fstate) call(ci ssa.CallInstruction) {
 			} else {
 				s.set(callVal, l)
 			}
+		}
+		return
+	}
+	// direct call of a closure value created in this function: parameters and captured variables are both mapped
+	if mc, ok := cc.Value.(*ssa.MakeClosure); ok {
+		callee := mc.Fn.(*ssa.Function)
+		for i, l := range labels {
+			if l == lNone || i >= len(callee.Params) {
+				continue
+			}
+			sum := s.e.summary(callee, i, s.depth+1)
+			s.applySummary(sum, l, callVal, args, len(callee.Params), mc)
 		}
 		return
 	}
@@ -870,6 +903,19 @@ func (e *flowEngine) Facts(src *flowSource) map[string]flabel {
 func (e *flowEngine) collectLocal(out map[string]flabel, sum *flowSummary) {
 	for k, l := range sum.sinks {
 		up(out, k, l)
+	}
+	for k, m := range sum.sites {
+		nraw := 0
+		for _, l := range m {
+			if l == lRaw {
+				nraw++
+			}
+		}
+		// counts are carried as pseudo-facts "Kind#n" (all sites) and "Kind#raw#n"
+		out[fmt.Sprintf("%s#%d", k, len(m))] = lDerived
+		if nraw > 0 {
+			out[fmt.Sprintf("%s#raw#%d", k, nraw)] = lRaw
+		}
 	}
 	for sk, l := range sum.stores {
 		up(out, "store:"+sk, l)
